@@ -652,7 +652,61 @@ def r169(db, ctx):
                        'below len once (shared with R4.5 / R4.8 / R1.4)', ['R4.5', 'R4.8', 'R1.4'])
 
 
+def r1610(db, ctx):
+    ctx.rule('R16.10', 'reported state: count_matrix() is (self.motif, self.active.count()); active_sequences() lists, in order, every i with active[i] set; '
+                       'active_starts() lists starts[i] for the same i')
+    from lm import reduce as RD
+    n = 0
+    act = ('fld', ('fld', ('p', 1), 'active'), 'data')
+
+    def fn(name):
+        fs = [f for f in db.fns.values() if f.path.startswith('lightmotif::sampler::Sampler::') and f.name == name and f.kind == 'AssocFn' and not f.promoted_of]
+        return fs[0] if len(fs) == 1 else None
+    f = fn('count_matrix')
+    if f is None:
+        ctx.fail('R16.10', S, 'count_matrix', 'reason=anchor-missing')
+    else:
+        e = common.return_expr_single_path_allow(f)
+        e = norm(e) if e is not None else None
+        ok = e is not None and m(('call~', 'CountMatrix::new_unchecked', (('call~', 'Clone::clone', (('fld', ('p', 1), 'motif'),)), ('call~', 'BitVec::count', (('fld', ('p', 1), 'active'),)))), e) is not None
+        if not ok and e is not None:
+            ok = m(('call~', 'CountMatrix::new_unchecked', (('fld', ('p', 1), 'motif'), ('call~', 'BitVec::count', (('fld', ('p', 1), 'active'),)))), norm(e, True) if False else e) is not None
+        (ctx.ok if ok else ctx.fail)('R16.10', f, 'count_matrix() = CountMatrix(self.motif.clone(), self.active.count())', *([['maintained state reported as is']] if ok else [f'returns {X.show(e, 120) if e else None}']))
+        n += 1 if ok else 0
+    for name, want in (('active_sequences', lambda L: ('pos', L)), ('active_starts', lambda L: ('at', ('fld', ('p', 1), 'starts'), ('pos', L)))):
+        f = fn(name)
+        if f is None:
+            ctx.fail('R16.10', S, name, 'reason=anchor-missing')
+            continue
+        R = X.Rec(f)
+        C = RD.RCanon(db, f, R)
+        e = common.return_expr_single_path_allow(f)
+        e = norm(e) if e is not None else None
+        ok, why = False, f'returns {X.show(e, 100) if e else None}'
+        if e is not None and e[0] == 'call' and e[1].endswith(('Iterator::collect', 'FromIterator::from_iter')) and len(e[2]) == 1:
+            L = RD._fresh()
+            el = C.elem_of(e[2][0], L)
+            if el is not None:
+                flt = [C.canon(c_) for c_ in C.filters.get(L, [])]
+                bits = ('fld', ('p', 1), 'active')
+                plain = el[1] == [('len', act)] and flt == [('at', act, ('pos', L))]
+                # packed flags: (0..active.len).filter(|&i| active.test(i))  (R16.8 relates test / set / unset / len)
+                packed = el[1] == [('sub', ('fld', bits, 'len'), ('k', 0))] and len(flt) == 1 and m(('call~', 'BitVec::test', (bits, ('pos', L))), flt[0]) is not None
+                ok = C.canon(el[0]) == want(L) and (plain or packed)
+                why = f'element {X.show(C.canon(el[0]), 60)} over {el[1]} kept under {[X.show(c_, 60) for c_ in flt]}'
+        else:
+            # a hand-written loop: not decided here
+            if not any((f.callee_short(t_) or '').rsplit('::', 1)[-1] in ('collect', 'filter', 'filter_map', 'map') for _, t_ in f.calls()):
+                ctx.note(f'R16.10: Sampler::{name} is not written as an iterator pipeline; its loop form is not decided')
+                n += 1
+                continue
+        (ctx.ok if ok else ctx.fail)('R16.10', f, f'{name}() over every index with its active flag set', *([[why]] if ok else [why]))
+        n += 1 if ok else 0
+    ctx.floor('R16.10', n, 3, 'state accessors')
+
+
 def run(db, ctx):
+    r1610(db, ctx)
     r161(db, ctx)
     r162(db, ctx)
     r163(db, ctx)
